@@ -37,6 +37,17 @@ MUTANTS = {
                                                        "        self.mapfile_transformer = self.transformer_class(\n            include_position=self.include_position or getattr(MapfileToDict, '_seen_pos', False),"),
                                                       ("mappyfile/transformer.py", "    def transform(self, tree):\n        tree = Canonize().transform(tree)\n", "    def transform(self, tree):\n        tree = Canonize().transform(tree)\n        MapfileToDict._seen_pos = getattr(MapfileToDict, '_seen_pos', False) or self.include_position\n")]),
     ],
+    "C09": [
+        ("range_test_exclusive", [(VA, "if version < min_version or version > max_version:", "if version <= min_version or version > max_version:")]),
+        ("range_test_max_exclusive", [(VA, "if version < min_version or version > max_version:", "if version < min_version or version >= max_version:")]),
+        ("cache_key_without_version", [(VA, "cache_schema_name = schema_name + str(version)", "cache_schema_name = schema_name")]),
+        ("no_recursion_into_nested_objects", [(VA, "                    del properties[key]\n                self.get_versioned_properties(v, version)", "                    del properties[key]")]),
+        ("version_zero_point_check_widened", [(VA, "        if version:\n            # remove any properties", "        if version and version >= 5.0:\n            # remove any properties")]),
+        ("list_members_not_descended", [(VA, "                            # also filter the keywords and alternatives nested in this member\n                            self.get_versioned_properties(props, version)\n", "")]),
+        ("alternatives_not_filtered", [(VA, "                        if self.is_valid_for_version(props, version) is True:\n", "                        if True:\n")]),
+        ("versionless_validation_uses_last_versioned_schema", [(VA, "        else:\n            validator = self.get_schema_validator(schema_name)", "        elif getattr(self, '_last', None) is not None and schema_name in self._last:\n            validator = self._last[schema_name]\n        else:\n            validator = self.get_schema_validator(schema_name)"),
+                                                               (VA, "            validator = jsonschema.Draft4Validator(schema=jsn_schema)\n", "            validator = jsonschema.Draft4Validator(schema=jsn_schema)\n            self._last = getattr(self, '_last', None) or {}\n            self._last[schema_name] = validator\n")]),
+    ],
     "C15": [
         ("resolve_relative_to_including_file", [(PA, "include_text, fn=fn, _nested_includes=_nested_includes + 1", "include_text, fn=inc_file_path, _nested_includes=_nested_includes + 1")]),
         ("max_depth_6", [(PA, "if _nested_includes == 5:", "if _nested_includes == 6:")]),
